@@ -33,7 +33,7 @@ VecInDomain(e) ==
             /\ \A j \in 1..Len(e.cols) : ValidArr(e.cols[j], e.t[j], e.q)
             /\ DOMAIN e.runs = {"direct"}          \* the keyword dispatch takes per-mode lists, not arrays
        ELSE ValidFam(e)
-    /\ e.sc \in {-3, 0, 3}
+    /\ e.sc \in {-9, -3, 0, 3, 9}
     /\ Len(e.cols) \in 1..3
     /\ \A j \in 1..Len(e.cols) : ValidVec(e.cols[j]) /\ Len(e.cols[j]) = Len(e.cols[1]) /\ ~Degenerate(e.op, e.cols[j])
     /\ (Len(e.cols) > 1 => e.op \in ColumnwiseOps)
